@@ -74,6 +74,12 @@ HOSTS_HOSTILE = [
     "a b", "a@b", "a:b", "a/b", "a?b", "a#b", "a%zzb", "a%2", "[::1]", "[]", "[", "]", "a[b]",
     "\u2100.com", "a\u3002b", "\uff41\uff3b\uff42\uff3d", "a\uff3bb", "\uff3b::1\uff3d", "a\uff3db", "\ufe5bx\ufe5c", "a\u2048b", "é" * 64 + ".com", "xn--a", "-a-", "a\x00b", "a\tb", "%", "a%25b",
     "v1.x", "::1%", "1::2::3", ":", "@", "a\\b", "A" * 70,
+    # unicode trouble: compatibility forms, case folding that changes length, invisible and bidi characters
+    "\u210c.com", "\ufb01sh.de", "\u0130stanbul.tr", "\u212aelvin.io", "a\u200db.com", "a\u00adb.com", "a\u0301.com", "\u202eevil.com",
+    "e\u0301xample.com", "\u2460.com", "\u33c7.com", "xn--\u00e9", "\u00c9XAMPLE.\u00c7OM", "a.\u3002b", "\uff0e.com", "a\u2024b", "\u2488com",
+    # IPv4 / IPv6 / zone oddities
+    "1.2.3.4.", "01.2.3.4", "1.2.3.4%25eth0", "1.2.3.4%eth0", "999.1.1.1", "1.2.3", "0x7f.0.0.1", "1.2.3.4.5", "::1%25eth0", "fe80::1%25", "fe80::1%e/th0",
+    "fe80::1%25e%20th0", "::ffff:999.1.1.1", "1:2:3:4:5:6:7:8:9", "::1.2.3", "[::1]%eth0", "fe80::1%\u00e9th0",
 ]
 USERS = ["u", "user", "User%41", "us er", "u:s", "u@s", "ю", "", "a/b", "%7e", "a%2Fb", "+", "u%", "a[b]"]
 PASSWORDS = ["p", "pass", "p:w", "p@w", "пароль", "", "%41", "p/w", "p w", "p%2", "p#w", "p?w"]
@@ -124,6 +130,9 @@ SPECIAL_URLS = [
     "//h:80", "foo://h:80", "ws://h:443", "wss://h:80",
     "http://[::ffff:1.2.3.4]/", "http://[2001:DB8::1]/", "http://[0:0:0:0:0:0:0:1]/", "http://[::1%25]/", "http://[::1%]/",
     "http://[::1]:/", "http://u@[::1]:8/", "http://[::1]@h/", "http://h@[::1]", "//[::1]:x",
+    "http://1.2.3.4%25eth0/", "http://[fe80::1%25e%20th0]/", "http://[fe80::1%\u00e9th0]:80/", "http://[::1%25eth0]:443/p", "http://1.2.3.4.:80/",
+    "http://h:+80/", "http://h:0x50/", "http://h:1_0/", "http://h:080/p", "http://h:\u0663\u0660/", "http://\u0130stanbul.tr/", "http://\ufb01sh.de:80",
+    "http://a\u200db.com/", "http://\u202eevil.com/", "http://\u00c9XAMPLE.\u00c7OM:80/", "http://u\u00e9:p\u00e9@h\u00e9:8080/p\u00e9?q\u00e9#f\u00e9",
     "http://127.0.0.1/", "http://127.000.0.1/", "http://1.2.3/", "http://256.1.1.1/", "http://0x7f.1/", "http://1/",
     "http://h/" + "a" * 300, "http://" + "a" * 64 + ".com/", "http://" + "a." * 130 + "com/", "http://" + "é" * 64 + ".com/",
     "http://h/" + "é" * 40, "http://h/?" + "k=v&" * 30,
@@ -328,14 +337,18 @@ def memo_snapshot(u):
     """Snapshot of the per-object memo for the write-once monitor (M2)."""
     try:
         c = object.__getattribute__(u, "_cache")
-    except AttributeError:
+        items = list(c.items())
+    except Exception:  # noqa
         return None
     out = {}
-    for k, v in list(c.items()):
-        if URL is not None and type(v) is URL:
-            out[k] = "URL" + repr(shallow(v))
-        else:
-            out[k] = vrepr(v)
+    for k, v in items:
+        try:
+            if URL is not None and type(v) is URL:
+                out[k] = "URL" + repr(shallow(v))
+            else:
+                out[k] = vrepr(v)
+        except Exception as e:  # noqa
+            out[k] = "<unrenderable %s>" % type(e).__name__
     return out
 
 
